@@ -37,7 +37,7 @@ KeysB == { K("e3", "attribute_authority", "signing", "kIdp2", "B") }
 KeysDup == { K("e1", "idpsso", "signing", "kAttacker", "B") }
 Cats == [e \in Ents |-> IF e = "e2" THEN {"cat1", "cat2"} ELSE {}]
 Required == [e \in Ents |-> IF e = "e2" THEN {"givenName"} ELSE {}]
-Optional == [e \in Ents |-> IF e = "e2" THEN {"mail"} ELSE {}]
+Optional == [e \in Ents |-> IF e = "e2" THEN {"mail", "title"} ELSE {}]      \* mail: no isRequired attribute; title: isRequired="false"
 
 \* pastOffset: an instant in the past written with a numeric time-zone offset (+02:00) instead of the UTC form the metadata
 \* schema profile demands; read naively (offset dropped, or applied with the wrong sign) it would lie in the future.  The
@@ -118,6 +118,13 @@ Answers ==
     \cup {[q |-> "cats", e |-> e, model |-> IF Live(e) THEN [r |-> "set", v |-> Cats[e]] ELSE [r |-> "set", v |-> {}],
            ok |-> {IF e \in Ents /\ \E src \in Declaring(e) : Valid(src, e) THEN [r |-> "set", v |-> Cats[e]] ELSE [r |-> "set", v |-> {}],
                    [r |-> "KeyError"]}] : e \in AllE}
+    \* attribute_requirement: what the (served) declaration of the entity asks for; nothing for anybody else
+    \cup {[q |-> "attrreq", e |-> e,
+           model |-> IF e \in Ents /\ Live(e) /\ Required[e] \cup Optional[e] # {} THEN [r |-> "attrs", req |-> Required[e], opt |-> Optional[e]]
+                     ELSE [r |-> "none"],
+           ok |-> IF e \in Ents /\ (\E src \in Declaring(e) : Valid(src, e)) /\ Required[e] \cup Optional[e] # {}
+                  THEN {[r |-> "attrs", req |-> Required[e], opt |-> Optional[e]]}
+                  ELSE {[r |-> "none"], [r |-> "attrs", req |-> {}, opt |-> {}]}] : e \in AllE}
 
 Emit == /\ pc = "query" /\ pc' = "done" /\ UNCHANGED <<scn, loaded>>
         /\ PrintT(<<"CASE", ToJson([scn |-> scn, loaded |-> loaded, answers |-> Answers,
